@@ -64,6 +64,8 @@ type Row struct {
 	// TargetMustExist: the target construct has to occur in Fn (used by
 	// must-pass-through rows where a vanished target is itself a finding).
 	TargetMustExist bool
+	// From: only targets reachable after a call matching this pattern count.
+	From string
 	Why             string
 }
 
@@ -187,6 +189,11 @@ func (e *e1Engine) valueNonNil(v ssa.Value, b *ssa.BasicBlock, lits []Lit, depth
 				}
 			}
 		}
+	case *ssa.UnOp:
+		// load of a package-level error variable that is only ever assigned non-nil values
+		if g, ok := x.X.(*ssa.Global); ok && x.Op == token.MUL && e.globalNonNil(g) {
+			return true
+		}
 	case *ssa.Phi:
 		for _, ed := range x.Edges {
 			if !e.valueNonNil(ed, nil, nil, depth+1) {
@@ -301,6 +308,58 @@ func (e *e1Engine) correlatedNonNil(x *ssa.Extract, c *ssa.Call, f *ssa.Function
 		if all && n > 0 {
 			return true
 		}
+	}
+	return false
+}
+
+// globalNonNil: every store to package-level variable g in its package stores
+// a certainly non-nil value (typically "var ErrX = errors.New(...)").
+func (e *e1Engine) globalNonNil(g *ssa.Global) bool {
+	key := "global|" + g.String()
+	if s, ok := e.nonNilMemo[key]; ok {
+		return s == 1
+	}
+	e.nonNilMemo[key] = 2
+	n := 0
+	ok := true
+	for _, m := range g.Pkg.Members {
+		f, isFn := m.(*ssa.Function)
+		if !isFn {
+			continue
+		}
+		fs := append([]*ssa.Function{f}, f.AnonFuncs...)
+		for _, fn := range fs {
+			for _, b := range fn.Blocks {
+				for _, ins := range b.Instrs {
+					if st, isSt := ins.(*ssa.Store); isSt && st.Addr == g {
+						n++
+						if !e.valueNonNil(st.Val, b, nil, 2) {
+							ok = false
+						}
+					}
+				}
+			}
+		}
+	}
+	// methods are not package members: scan them through the program's function set
+	for fn := range e.a.AllFns {
+		if fn.Pkg != g.Pkg || fn.Signature.Recv() == nil {
+			continue
+		}
+		for _, b := range fn.Blocks {
+			for _, ins := range b.Instrs {
+				if st, isSt := ins.(*ssa.Store); isSt && st.Addr == g {
+					n++
+					if !e.valueNonNil(st.Val, b, nil, 2) {
+						ok = false
+					}
+				}
+			}
+		}
+	}
+	if ok && n > 0 {
+		e.nonNilMemo[key] = 1
+		return true
 	}
 	return false
 }
@@ -434,6 +493,7 @@ type e1Result struct {
 	ok       bool
 	hit      ssa.Instruction
 	hitDesc  string
+	nFrom    int
 	path     []int // block indices from entry to the hit
 	matched  []int // per literal: number of Ifs it decided
 	nIfs     int
@@ -485,7 +545,16 @@ func (e *e1Engine) isTarget(ins ssa.Instruction, t Target, lits []Lit) bool {
 		return ok
 	case TRetConst:
 		if r, ok := ins.(*ssa.Return); ok && t.Idx < len(r.Results) {
-			return desc(retOperand(r, t.Idx), 3) != t.Re
+			op := retOperand(r, t.Idx)
+			if t.Re == "true" || t.Re == "false" {
+				if _, isConst := op.(*ssa.Const); !isConst {
+					// a boolean decided by the valuation counts as that constant
+					if known, val := e.boolUnder(op, lits, nil); known {
+						return val != (t.Re == "true")
+					}
+				}
+			}
+			return desc(op, 3) != t.Re
 		}
 	case TRetMatch:
 		if r, ok := ins.(*ssa.Return); ok && t.Idx < len(r.Results) {
@@ -728,14 +797,67 @@ func (e *e1Engine) eval(fn *ssa.Function, row *Row) e1Result {
 			}
 		}
 	}
-	// pass 2: first reachable target
+	// pass 2: first reachable target (when row.From is set: only targets that
+	// lie after a call matching From on some feasible path)
 	res.ok = true
+	var after map[*ssa.BasicBlock]int // block -> first instruction index that counts
+	if row.From != "" {
+		after = map[*ssa.BasicBlock]int{}
+		var q2 []*ssa.BasicBlock
+		for _, b := range order {
+			lim := len(b.Instrs)
+			if c, ok := cutAt[b]; ok {
+				lim = c
+			}
+			for i, ins := range b.Instrs[:lim] {
+				if _, ok := e.callMatches(ins, row.From); ok {
+					if cur, seenB := after[b]; !seenB || i+1 < cur {
+						after[b] = i + 1
+					}
+					q2 = append(q2, b)
+					break
+				}
+			}
+		}
+		res.nFrom = len(q2)
+		for len(q2) > 0 {
+			b := q2[0]
+			q2 = q2[1:]
+			if _, c := cutAt[b]; c {
+				continue
+			}
+			for _, s := range b.Succs {
+				if !edgeFeasible(b, s) || !seen[s] {
+					continue
+				}
+				if _, ok := after[s]; !ok {
+					after[s] = 0
+					q2 = append(q2, s)
+				} else if after[s] != 0 {
+					// reached again from its start (loop): everything counts
+					after[s] = 0
+					q2 = append(q2, s)
+				}
+			}
+		}
+	}
 	for _, b := range order {
 		lim := len(b.Instrs)
 		if c, ok := cutAt[b]; ok {
 			lim = c
 		}
-		for _, ins := range b.Instrs[:lim] {
+		start := 0
+		if after != nil {
+			a, ok := after[b]
+			if !ok {
+				continue
+			}
+			start = a
+		}
+		if start > lim {
+			continue
+		}
+		for _, ins := range b.Instrs[start:lim] {
 			if e.isTarget(ins, row.Target, row.Assume) {
 				res.ok = false
 				res.hit = ins
